@@ -216,13 +216,22 @@ def layout(h, which="mechanism", seed=0):
     h.holds("my_uDOF partitions range(nu)", allu == list(range(sysm.nu)))
     t, q, u, ud, la = _state(h, sysm)
     with h.capture():
-        before = [np.asarray(sysm.h(t, q, u)), _dense(sysm.W_g(t, q)), np.asarray(sysm.g(t, q)), _dense(sysm.M(t, q)), np.asarray(sysm.q_dot(t, q, u))]
+        la_c = h.vec("la_c", sysm.nla_c) if sysm.nla_c else np.zeros(0)
+
+        def evaluate():
+            return [np.asarray(sysm.h(t, q, u)), _dense(sysm.W_g(t, q)), np.asarray(sysm.g(t, q)), _dense(sysm.M(t, q)), np.asarray(sysm.q_dot(t, q, u)),
+                    np.asarray(sysm.c(t, q, u, la_c)), _dense(sysm.c_la_c()), _dense(sysm.W_c(t, q)), _dense(sysm.W_gamma(t, q)),
+                    _dense(sysm.W_tau(t, q)), _dense(sysm.W_N(t, q)), _dense(sysm.W_F(t, q)), np.asarray(sysm.g_N(t, q))]
+        before = evaluate()
         lib.assemble(sysm)
-        after = [np.asarray(sysm.h(t, q, u)), _dense(sysm.W_g(t, q)), np.asarray(sysm.g(t, q)), _dense(sysm.M(t, q)), np.asarray(sysm.q_dot(t, q, u))]
+        after = evaluate()
+        lib.assemble(sysm)
+        third = evaluate()
     s2 = snapshot()
     h.holds("assemble() twice: identical layout", s1 == s2)
-    for nm, a, b in zip(("h", "W_g", "g", "M", "q_dot"), before, after):
+    for nm, a, b, c3 in zip(("h", "W_g", "g", "M", "q_dot", "c", "c_la_c", "W_c", "W_gamma", "W_tau", "W_N", "W_F", "g_N"), before, after, third):
         h.eq(f"assemble() twice: {nm} unchanged", b, a)
+        h.eq(f"assemble() three times: {nm} unchanged", c3, a)
 
 
 def registry(h, ops=()):
